@@ -40,6 +40,24 @@ def case_st(draw, shapes):
     sc = draw(scen.scenario_st(shapes, measure="none", numeric=numeric, max_valid=5,
                                weight_kinds=("none", "none", "int", "dyadic", "tenths"),
                                skew=draw(st.booleans())))
+    sv, q = sc["survey"], sc["query"]
+    if len(q["dims"]) == 2 and draw(st.integers(0, 2)) == 0:
+        # exact half splits: within each column, half of the respondents at or below some
+        # numeric value and half above it (where a median averages two neighbours - or
+        # must not, when the neighbour is empty)
+        rvar, cvar = sv["vars"][q["dims"][0]["var"]], sv["vars"][q["dims"][1]["var"]]
+        if rvar["type"] == "cat" and cvar["type"] == "cat":
+            valued = sorted([c for c in rvar["cats"] if not c["missing"] and c["value"] is not None],
+                            key=lambda c: c["value"])
+            if len(valued) >= 2:
+                k = draw(st.integers(1, len(valued) - 1))
+                low, high = [c["id"] for c in valued[:k]], [c["id"] for c in valued[k:]]
+                for cid in set(cvar["answers"]):
+                    rs = [r for r in range(sv["n"]) if cvar["answers"][r] == cid]
+                    half = len(rs) // 2
+                    for pos, r in enumerate(rs[:2 * half]):
+                        rvar["answers"][r] = draw(st.sampled_from(low if pos < half else high))
+                sc["half_split"] = True
     tx, inforce = draw(xforms.slice_insertions_st(sc, where="either", max_ins=3,
                                                   allow_malformed=False, allow_diff=True))
     sc["transforms"] = tx
